@@ -821,9 +821,9 @@ class SeqAlg:
         if isinstance(s, ast.While):
             # a counted `while` (`i = a; while i < N: ...; i += 1`, the increment first, last or in between) is the `for` over range(a, N) the
             # term evaluator makes of it
-            from .symeval import _counter_while
+            from .symeval import _counter_while, _probe_while
 
-            cf = _counter_while(s, self.f.node, env)
+            cf = _counter_while(s, self.f.node, env) or _probe_while(s, self.f.node, env)
             if cf is not None:
                 self.loop(cf, env, conds)
                 return
